@@ -46,6 +46,16 @@ def helper_cases(tier, rng, exp):
                     if rng.random() < 0.5:
                         s = s.upper()
                     out.append(("N i64 %d %d %s" % (radix, neg, C.hexs(s.encode())), i64_expect(v, neg)))
+    # leading zeros leave the value alone but move the 8-digit block boundaries: every padding that changes the
+    # number of blocks, around every limit (radix 10 all paddings up to 3 blocks; other radixes a sample)
+    for radix in (10, 2, 8, 16, 36, rng.randint(3, 35)):
+        for base in (2 ** 63, 2 ** 64, 10 ** 18, 2 ** 63 // radix):
+            for delta in (-2, -1, 0, 1, 2, 91):
+                v = base + delta
+                s0 = to_radix(v, radix)
+                for pad in (range(1, 25) if radix == 10 else (1, 5, 8, 13, 16)):
+                    for neg in (0, 1):
+                        out.append(("N i64 %d %d %s" % (radix, neg, C.hexs(("0" * pad + s0).encode())), i64_expect(v, neg)))
     for nd in list(range(1, 41)):
         for lead in ("1", "9", "0"):
             for _ in range(2):
@@ -95,7 +105,7 @@ def literal_cases(tier, rng, cfg):
 
     n = 300 if tier == "quick" else 3000
     for _ in range(n):
-        mag = rng.choice([rng.randrange(10 ** rng.randint(1, 40)), 2 ** 63 + rng.randint(-2, 2), 2 ** 64 + rng.randint(-2, 2), 10 ** 8 * rng.randint(1, 10 ** 10)])
+        mag = rng.choice([rng.randrange(10 ** rng.randint(1, 40)), 2 ** 63 + rng.randint(-2, 2), 2 ** 63 + rng.randint(-2, 100), 2 ** 64 + rng.randint(-2, 2), 10 ** 8 * rng.randint(1, 10 ** 10)])
         sign = rng.choice(["", "-", "+"])
         digs = str(mag)
         v = -mag if sign == "-" else mag
@@ -121,6 +131,14 @@ def literal_cases(tier, rng, cfg):
                     out.append(((sign + "0" + to_radix(mag, 8)).encode(), "(int %d)" % v))
             else:
                 out.append(((sign + "%dr%s" % (r, rd)).encode(), "(bigint %d %d %s)" % (1 if sign == "-" else 0, r, C.hexs(rd.encode()))))
+            # zero-padded digit strings after a radix / hex prefix (leading zeros are legal there and shift the
+            # 8-digit blocks); a big integer keeps the literal's digits, zeros included
+            pad = "0" * rng.choice([1, 2, 5, 8 - len(rd) % 8, 16 - len(rd) % 8, 13])
+            for pre, rr, dd in (("%dr" % r, r, pad + rd), ("10r", 10, pad + digs), ("0x", 16, pad + to_radix(mag, 16))):
+                if -2 ** 63 <= v <= 2 ** 63 - 1:
+                    out.append(((sign + pre + dd).encode(), "(int %d)" % v))
+                else:
+                    out.append(((sign + pre + dd).encode(), None))  # which zeros a big integer keeps: model only
             # ratios
             den = rng.choice([1, 2, 3, rng.randint(1, 10 ** 6), 2 ** 63 - 1, 2 ** 63, rng.randrange(1, 10 ** 25)])
             num_ok = -2 ** 63 <= v <= 2 ** 63 - 1
